@@ -36,8 +36,8 @@ open Ural.Props.C08 (hostLen)
 
 /-! ## table obligations -/
 
-/-- the two keys of `LANG_QUERY_KEYS` the property names -/
-theorem langQueryKeys_eq : Gen.Normalize.langQueryKeys = ["gl", "hl"] := by decide
+/-- the two keys the property names are in `LANG_QUERY_KEYS` (regenerated) -/
+theorem langQueryKeys_has : "gl" ∈ Gen.Normalize.langQueryKeys ∧ "hl" ∈ Gen.Normalize.langQueryKeys := by decide
 
 /-- `gl` / `hl` are in no combo table of `normalize_url` (else `IRRELEVANT_QUERY_COMBOS[key]`
 would decide on the *value* before the language filter is asked) — what `shouldStrip_lang` uses -/
